@@ -290,3 +290,11 @@ def c10(tier, seed):
 
 
 CHECKS.update({"C10": c10})
+
+
+def c09(tier, seed):
+    import c09 as m
+    return m.run(tier, seed)
+
+
+CHECKS.update({"C09": c09})
